@@ -23,7 +23,6 @@ use crate::wire::*;
 use crate::Ctx;
 
 const UNIVERSE: [&str; 6] = ["z.", "sub.z.", "a.sub.z.", "b.z.", "other.", "deep.er.other."];
-const SENTINEL: &str = "sentinel.";
 
 #[derive(Clone, Copy, Debug, PartialEq, Eq)]
 enum FileKind {
@@ -46,6 +45,10 @@ struct ZoneFile {
     kind: FileKind,
     /// true if the file changed since the daemon last looked at it
     touched: bool,
+    /// which of the zone's two paths the configuration names
+    alt: bool,
+    /// version and kind of the file staged under the other path, if any
+    staged: Option<(u32, FileKind)>,
 }
 
 fn zone_text(name: &str, version: u32, kind: FileKind) -> String {
@@ -62,6 +65,14 @@ fn file_name(zone: &str) -> String {
     format!("{}zone", if zone == "." { "root." } else { zone })
 }
 
+fn path_name(zone: &str, alt: bool) -> String {
+    if alt {
+        format!("alt/{}", file_name(zone))
+    } else {
+        file_name(zone)
+    }
+}
+
 struct Daemon {
     child: Child,
     addr: SocketAddr,
@@ -70,13 +81,17 @@ struct Daemon {
     next_id: u16,
 }
 
-fn free_port() -> Option<u16> {
-    for _ in 0..20 {
-        if let Ok(l) = TcpListener::bind((Ipv4Addr::LOCALHOST, 0)) {
-            if let Ok(a) = l.local_addr() {
-                if UdpSocket::bind((Ipv4Addr::LOCALHOST, a.port())).is_ok() {
-                    return Some(a.port());
-                }
+/// A port below the ephemeral range, from a slot owned by this shard
+/// (parallel shards start daemons at the same time; a port found free by
+/// bind-and-release could be taken by a sibling before our daemon binds).
+fn free_port(shard: u64, case: u64) -> Option<u16> {
+    let slot = 20000 + (shard % 16) * 700;
+    let pid_off = (std::process::id() as u64 % 7) * 100;
+    for attempt in 0..40u64 {
+        let port = (slot + (pid_off + case * 3 + attempt) % 700) as u16;
+        if let Ok(_l) = TcpListener::bind((Ipv4Addr::LOCALHOST, port)) {
+            if UdpSocket::bind((Ipv4Addr::LOCALHOST, port)).is_ok() {
+                return Some(port);
             }
         }
     }
@@ -192,13 +207,12 @@ impl History {
         self.states = next;
     }
 
-    fn config_text(&self, port: u16, step: u32) -> String {
+    fn config_text(&self, port: u16, sentinel: &str) -> String {
         let mut s = format!("bind = \"127.0.0.1:{}\"\n\n", port);
-        s.push_str(&format!("[[zones]]\nname = \"{}\"\npath = \"{}\"\n\n", SENTINEL, file_name(SENTINEL)));
+        s.push_str(&format!("[[zones]]\nname = \"{}\"\npath = \"{}\"\n\n", sentinel, file_name(sentinel)));
         for z in &self.configured {
-            s.push_str(&format!("[[zones]]\nname = \"{}\"\npath = \"{}\"\n\n", z, file_name(z)));
+            s.push_str(&format!("[[zones]]\nname = \"{}\"\npath = \"{}\"\n\n", z, path_name(z, self.files[z].alt)));
         }
-        let _ = step;
         s
     }
 }
@@ -216,24 +230,28 @@ pub fn run(ctx: &Ctx, rep: &mut Report) {
         }
     };
     let valgrind = std::env::var("QV_DAEMON_VALGRIND").is_ok();
-    let n = ctx.cases(32, 320);
+    let n = ctx.cases(96, 640);
     let base = PathBuf::from(&ctx.workdir).join("c31");
     for case in ctx.case_range(n) {
         rep.current_case = case;
         let mut rng = ctx.rng("c31", case);
         let dir = base.join(format!("d{}", case));
         let _ = std::fs::remove_dir_all(&dir);
-        if std::fs::create_dir_all(&dir).is_err() {
+        if std::fs::create_dir_all(dir.join("alt")).is_err() {
             rep.inconclusive("cannot create the daemon work directory");
             return;
         }
-        let port = match free_port() {
+        let port = match free_port(ctx.shard, case) {
             Some(p) => p,
             None => {
                 rep.inconclusive("no free loopback port");
                 continue;
             }
         };
+        // the sentinel zone's name is unique to this daemon, so an answer from any
+        // other quandaryd (a sibling shard's) can never be mistaken for ours
+        let sentinel_name = format!("sentinel-{}-{}-{}.", std::process::id(), ctx.shard, case);
+        let sentinel: &str = &sentinel_name;
         let epoch = SystemTime::UNIX_EPOCH + Duration::from_secs(1_600_000_000);
         let mut h = History { files: BTreeMap::new(), configured: Vec::new(), states: BTreeMap::new(), clock: 0 };
         let mut trace: Vec<String> = Vec::new();
@@ -241,7 +259,7 @@ pub fn run(ctx: &Ctx, rep: &mut Report) {
         let mut version = 1u32;
         for z in UNIVERSE.iter() {
             let kind = *rng.pick(&[FileKind::Valid, FileKind::Valid, FileKind::Valid, FileKind::Syntax, FileKind::Semantic, FileKind::Missing]);
-            h.files.insert(z.to_string(), ZoneFile { version, kind, touched: true });
+            h.files.insert(z.to_string(), ZoneFile { version, kind, touched: true, alt: false, staged: None });
             if kind != FileKind::Missing {
                 let _ = write_with_mtime(&dir.join(file_name(z)), &zone_text(z, version, kind), epoch);
             }
@@ -251,8 +269,8 @@ pub fn run(ctx: &Ctx, rep: &mut Report) {
             version += 1;
         }
         rng.shuffle(&mut h.configured);
-        let _ = write_with_mtime(&dir.join(file_name(SENTINEL)), &zone_text(SENTINEL, 0, FileKind::Valid), epoch);
-        let _ = std::fs::write(dir.join("config.toml"), h.config_text(port, 0));
+        let _ = write_with_mtime(&dir.join(file_name(sentinel)), &zone_text(sentinel, 0, FileKind::Valid), epoch);
+        let _ = std::fs::write(dir.join("config.toml"), h.config_text(port, sentinel));
         trace.push(format!("step 0: configured {:?}, files {:?}", h.configured, h.files.iter().map(|(k, f)| format!("{}:{:?}v{}", k, f.kind, f.version)).collect::<Vec<_>>()));
         h.apply_load();
         // start the daemon
@@ -291,7 +309,7 @@ pub fn run(ctx: &Ctx, rep: &mut Report) {
         let ready_deadline = Instant::now() + Duration::from_secs(if valgrind { 120 } else { 15 });
         let mut ready = false;
         while Instant::now() < ready_deadline {
-            if let Some(m) = d.query(SENTINEL, T_SOA) {
+            if let Some(m) = d.query(sentinel, T_SOA) {
                 if Daemon::soa_serial(&m, Section::Answer).map(|s| s.1) == Some(0) {
                     ready = true;
                     break;
@@ -324,13 +342,40 @@ pub fn run(ctx: &Ctx, rep: &mut Report) {
                             f.version = version;
                             f.kind = kind;
                             f.touched = true;
-                            let path = dir.join(file_name(z));
+                            let path = dir.join(path_name(z, f.alt));
                             if kind == FileKind::Missing {
                                 let _ = std::fs::remove_file(&path);
                             } else {
                                 let _ = write_with_mtime(&path, &zone_text(z, version, kind), mtime);
                             }
                             edits.push(format!("{}:=v{}{:?}", z, version, kind));
+                        }
+                        5 => {
+                            // rewrite the current file (mtime T) and stage a newer version under the
+                            // zone's other path with mtime T-5: older than what will be loaded now,
+                            // yet newer than anything that path held before
+                            version += 2;
+                            let f = h.files.get_mut(*z).unwrap();
+                            f.version = version - 1;
+                            f.kind = FileKind::Valid;
+                            f.touched = true;
+                            let staged_kind = *rng.pick(&[FileKind::Valid, FileKind::Valid, FileKind::Syntax]);
+                            f.staged = Some((version, staged_kind));
+                            let _ = write_with_mtime(&dir.join(path_name(z, f.alt)), &zone_text(z, version - 1, FileKind::Valid), mtime);
+                            let _ = write_with_mtime(&dir.join(path_name(z, !f.alt)), &zone_text(z, version, staged_kind), mtime - Duration::from_secs(5));
+                            edits.push(format!("{}:=v{}Valid,staged:{}=v{}{:?}", z, version - 1, path_name(z, !f.alt), version, staged_kind));
+                        }
+                        6 => {
+                            // the configuration switches to the staged path: a changed path must be
+                            // loaded although its mtime is not newer than that of the loaded data
+                            let f = h.files.get_mut(*z).unwrap();
+                            if let Some((v, kind)) = f.staged.take() {
+                                f.alt = !f.alt;
+                                f.version = v;
+                                f.kind = kind;
+                                f.touched = true;
+                                edits.push(format!("{}:path->{}(v{}{:?})", z, path_name(z, f.alt), v, kind));
+                            }
                         }
                         3 | 4 => {
                             let configured = h.configured.iter().any(|c| c == z);
@@ -348,15 +393,15 @@ pub fn run(ctx: &Ctx, rep: &mut Report) {
                         _ => {}
                     }
                 }
-                let _ = write_with_mtime(&dir.join(file_name(SENTINEL)), &zone_text(SENTINEL, step, FileKind::Valid), mtime);
-                let _ = std::fs::write(dir.join("config.toml"), h.config_text(port, step));
+                let _ = write_with_mtime(&dir.join(file_name(sentinel)), &zone_text(sentinel, step, FileKind::Valid), mtime);
+                let _ = std::fs::write(dir.join("config.toml"), h.config_text(port, sentinel));
                 trace.push(format!("step {}: {}; configured {:?}", step, edits.join(" "), h.configured));
                 h.apply_load();
                 d.sighup();
                 // ---- wait until the reload is visible ----------------
                 let mut seen = false;
                 for _ in 0..(if valgrind { 600 } else { 120 }) {
-                    if let Some(m) = d.query(SENTINEL, T_SOA) {
+                    if let Some(m) = d.query(sentinel, T_SOA) {
                         if Daemon::soa_serial(&m, Section::Answer).map(|s| s.1) == Some(step) {
                             seen = true;
                             break;
